@@ -65,6 +65,18 @@ def affine(s):
                 return {x: c * a[1] for x, c in b[0].items() if c * a[1] != 0}, a[1] * b[1]
             if not b[0]:
                 return {x: c * b[1] for x, c in a[0].items() if c * b[1] != 0}, a[1] * b[1]
+            # (sum) * t with t a single opaque term: distribute
+            from sa.sym import mk_bin
+            for u, v in ((a, b), (b, a)):
+                if len(v[0]) == 1 and v[1] == 0 and list(v[0].values())[0] == 1:
+                    t = list(v[0])[0]
+                    out = {}
+                    for x, c in u[0].items():
+                        k = mk_bin("*", x, t)
+                        out[k] = out.get(k, 0) + c
+                    if u[1] != 0:
+                        out[t] = out.get(t, 0) + u[1]
+                    return {x: c for x, c in out.items() if c != 0}, Fraction(0)
             return {s: Fraction(1)}, Fraction(0)
     if k == "un" and s[1] == "-":
         a = affine(s[2])
